@@ -600,7 +600,8 @@ TIMEDELTAS = [datetime.timedelta(0), datetime.timedelta(seconds=1), datetime.tim
               datetime.timedelta(days=7), datetime.timedelta(days=8, microseconds=1), datetime.timedelta(days=400),
               datetime.timedelta(seconds=-1), datetime.timedelta(microseconds=999999),
               datetime.timedelta(days=150000, microseconds=1)]
-PATTERNS = [re.compile("a"), re.compile("^x+$"), re.compile("[0-9]{2}"), re.compile("abc", re.I), re.compile("^x .+ y$", re.M | re.S)]
+PATTERNS = [re.compile("a"), re.compile("^x+$"), re.compile("[0-9]{2}")]
+PATTERNS_FLAGS = [re.compile("abc", re.I), re.compile("^x .+ y$", re.M | re.S)]
 
 
 def DecimalS(): return Picked(decimal.Decimal, DECIMALS)
@@ -618,7 +619,10 @@ def TimeDeltaS(safe=True):
     big = datetime.timedelta(days=24855)
     return Picked(datetime.timedelta, [x for x in TIMEDELTAS if datetime.timedelta(0) <= x < big] if safe else TIMEDELTAS,
                   tag=lambda v: "neg" if v < datetime.timedelta(0) else ("large_us" if abs(v) >= big and v.microseconds else "nonneg"))
-def PatternS(): return Picked(re.Pattern, PATTERNS)
+def PatternS(safe=True):
+    """safe: compiled without flags (the wire form is the pattern text alone; flags do not survive it - a recorded finding)."""
+    return Picked(re.Pattern, PATTERNS if safe else PATTERNS + PATTERNS_FLAGS,
+                  tag=lambda v: "flags" if v.flags & ~re.UNICODE else "plain")
 
 
 # ------------------------------------------------------------------------------- container constructors
